@@ -25,7 +25,7 @@ def model_check(chk, cfgs, out):
     """Design-level model checking (runs in a thread next to the rig)."""
     try:
         for cfg, workers in cfgs:
-            r = vlib.tlc(SPECDIR, "MC_ServerMux", cfg, workers=workers, timeout=1500, keep_prints=False,
+            r = vlib.tlc(SPECDIR, "MC_ServerMux", cfg, workers=workers, timeout=1500, keep_prints=False, heap="6g",
                          coverage=(chk.tier != "quick" and cfg in ("MC_t4.cfg", "MC_q2.cfg")))
             out.append((cfg, r))
     except Exception as e:      # reported by the caller
